@@ -23,7 +23,7 @@ PROPS = {
         "units": [r"^xml_schema_generator::necessity::", r"^xml_schema_generator::vspec::nec::", r"^xml_schema_generator::vspec::c15::"],
         "modules": ["necessity", "vspec::nec", "vspec::c15", "vspec::boundary"],
         "assumes": ["A1", "A2", "A9", "M", "U", "V"],
-        "claim": "full functional contract of merge_necessity against spec_merge (written from the statement) plus the derived clause lemmas (each distinct item exactly once for duplicate-free inputs, Mandatory iff Mandatory in both, first-list order then second-list-only items in original relative order), for all lists of all lengths",
+        "claim": "for duplicate-free lists (the property's precondition; nothing is demanded for lists with repeated items) the real merge_necessity computes spec_merge (written from the statement); the loop invariants speak about the state, not about early exits; plus the derived clause lemmas (each distinct item exactly once, Mandatory iff Mandatory in both, first-list order then second-list-only items in original relative order), for all lists of all lengths",
     },
     "C16": {
         "units": [r"^xml_schema_generator::element::", r"^xml_schema_generator::necessity::(Necessity::|impl)", r"^xml_schema_generator::vspec::tree::", r"^xml_schema_generator::vspec::c16::"],
